@@ -8,7 +8,7 @@ def run(chk):
         "Decides absence of specific classes of panic; it does not prove the ~500 remaining panic-capable sites (indexing, unwrap on internal "
         "invariants, third-party code) safe. R04a: no coercion result on a run-time value is unwrapped in resolve-reachable stdlib code. R04b: no result "
         "of a `dyn Target` call is unwrapped. R04c: every keyword compile() reads is declared (a mismatch is the 'invalid function signature' panic). "
-        "R04e: no overflow-capable negation / iN::abs / iN::pow of a run-time signed integer. R04f: no unguarded sign-losing cast feeding a count/index. R04g: no str slice/index bound computed from a character count. R04h: divisors and chunk/window/step sizes are constants or compared against zero. R04i: `regex::Captures` is indexed with the panicking `[]` only at the reviewed sites where the group always takes part in the match (an optional or alternated group makes `caps[i]` panic; `caps.get(i)` is the total API). R04j: in resolve-reachable stdlib code the result of a library call whose failure depends on the *content* of its argument (AEAD decryption = authentication, float->Decimal conversion = range, UTF-8 validation, FromStr parsing, regex compilation) is never consumed directly by unwrap/expect; all other unwrap-on-call sites are listed as instances but not decided.")
+        "R04e: no overflow-capable negation / iN::abs / iN::pow of a run-time signed integer. R04f: no unguarded sign-losing cast feeding a count/index. R04g: no str slice/index bound computed from a character count. R04h: divisors and chunk/window/step sizes are constants or compared against zero. R04i: `regex::Captures` is indexed with the panicking `[]` only at the reviewed sites where the group always takes part in the match (an optional or alternated group makes `caps[i]` panic; `caps.get(i)` is the total API). R04j: in resolve-reachable stdlib code the result of a library call whose failure depends on the *content* of its argument (AEAD decryption = authentication, float->Decimal conversion = range, UTF-8 validation, FromStr parsing, regex compilation) is never consumed directly by unwrap/expect; all other unwrap-on-call sites are listed as instances but not decided. R04k: `rust_decimal::Decimal` arithmetic on a run-time operand goes through the `checked_*` API; the `+ - * / %` operator impls panic on overflow and on a zero divisor in every build profile.")
     chk.assumptions += ["builds with overflow checks (the test profile) panic on arithmetic overflow; release builds wrap — the rule treats both as defects"]
     M = sr.function_model(chk.facts)
     sr.rule_coercion_unwrapped(chk, "R04a", M)
@@ -22,6 +22,7 @@ def run(chk):
 
     rule_r04i(chk)
     rule_r04j(chk, M)
+    rule_r04k(chk)
 
 
 CAPTURES_INDEX_OK = {
@@ -118,3 +119,34 @@ def rule_r04j(chk, M):
                     chk.violation(rid, b.file, n, "%s().%s()" % (tail, key[2]),
                                   "%s consumes the result of %s with %s: %s, so a run-time argument makes the host panic instead of the call returning an error"
                                   % (n, src, key[2], why), detail=d, loc="%s:%s" % (b.file, t["ln"]))
+
+
+# R04k --------------------------------------------------------------------------------------------
+def rule_r04k(chk):
+    import re
+    facts = chk.facts
+    rid = "R04k"
+    chk.rule(rid, "Decimal arithmetic on run-time operands uses checked_* (the operator impls panic on overflow / zero divisor)", floor=3)
+    opre = re.compile(r"^<&?rust_decimal::Decimal as std::ops::(Add|Sub|Mul|Div|Rem)(Assign)?(<.*>)?>::(add|sub|mul|div|rem)(_assign)?$"
+                      r"|<impl (<.*> )?std::ops::(Add|Sub|Mul|Div|Rem)(Assign)?(<.*>)? for &?('[a-z_]+ )?rust_decimal::Decimal>::(add|sub|mul|div|rem)(_assign)?$")
+    okre = re.compile(r"<impl rust_decimal::Decimal>::checked_(add|sub|mul|div|rem)$")
+    for i in facts.index:
+        n = i["name"]
+        if "/build/" in i["file"] or n.startswith("cli::") or not any("Decimal" in c for c in i["callees"]):
+            continue
+        b = facts.body(n)
+        if b is None:
+            continue
+        for bb, t in b.calls():
+            cal = b.callee(t)
+            if okre.search(cal):
+                chk.instance(rid, {"fn": n, "call": cal.rsplit("::", 1)[1], "at": "%s:%s" % (b.file, t["ln"])}, ok=True)
+            elif opre.search(cal):
+                if all(a.get("k") == "const" for a in t["args"]):
+                    chk.instance(rid, {"fn": n, "call": cal, "constant_operands": True}, ok=True)
+                    continue
+                d = {"fn": n, "call": cal, "at": "%s:%s" % (b.file, t["ln"])}
+                chk.instance(rid, d, ok=False)
+                chk.violation(rid, b.file, n, "Decimal operator",
+                              "%s applies the panicking operator %s to a run-time Decimal: rust_decimal panics (\"overflowed\", \"Division by zero\") where "
+                              "checked_%s returns None" % (n, cal, cal.rsplit("::", 1)[1].replace("_assign", "")), detail=d, loc=d["at"])
